@@ -15,6 +15,7 @@ from flowmark.linewrapping.text_wrapping import (
     DEFAULT_LEN_FUNCTION,
     markdown_escape_first_word,
     markdown_first_line_is_rule,
+    markdown_line_is_rule,
     markdown_starts_like_definition,
     wrap_paragraph,
     wrap_paragraph_lines,
@@ -110,9 +111,12 @@ def _add_markdown_hard_break_handling(base_wrapper: LineWrapper) -> LineWrapper:
             segments[0] = markdown_escape_first_word(segments[0])
         # Handle single segment (no hard line breaks).
         if len(segments) == 1:
-            return _protect_trailing_backslashes(
-                base_wrapper(text, initial_indent, subsequent_indent), is_last=True
-            )
+            result = base_wrapper(text, initial_indent, subsequent_indent)
+            if "\n" not in result and markdown_line_is_rule(result[len(initial_indent) :]):
+                escaped_text = markdown_escape_first_word(text)
+                if escaped_text != text:
+                    result = base_wrapper(escaped_text, initial_indent, subsequent_indent)
+            return _protect_trailing_backslashes(result, is_last=True)
 
         wrapped_segments: list[str] = []
 
@@ -195,10 +199,7 @@ def line_wrap_by_sentence(
         # Handle width <= 0 as "no wrapping"
         if width <= 0:
             # Collapse whitespace runs as wrapping does (words are split and rejoined).
-            line = " ".join(text.split())
-            if is_markdown and markdown_first_line_is_rule([line]):
-                line = markdown_escape_first_word(line)
-            return initial_indent + line
+            return initial_indent + " ".join(text.split())
 
         lines: list[str] = []
         first_line = True
